@@ -183,8 +183,10 @@ def parse_output(text):
         elif t == 'v' and ln[1] == ' ':
             f = ln.split()
             n = int(f[6])
-            el = [(int(f[7 + 2 * i]), float(f[8 + 2 * i])) for i in range(n)]
-            cur['vr'][int(f[1])] = dict(pen=float(f[2]), staged=float(f[3]), bound=float(f[4]), value=float(f[5]), el=el)
+            el = [(int(f[7 + 3 * i]), float(f[8 + 3 * i])) for i in range(n)]
+            mw = {int(f[7 + 3 * i]): float(f[9 + 3 * i]) for i in range(n)}
+            cur['vr'][int(f[1])] = dict(pen=float(f[2]), staged=float(f[3]), bound=float(f[4]), value=float(f[5]), el=el,
+                                        mw=mw)
         elif t == 'f' and ln[1] == ' ':
             f = ln.split()
             cur['fresh'][int(f[1])] = float(f[2])
@@ -218,7 +220,7 @@ def parse_output(text):
 BMF_GIVEUP = 'Unable to find a BMF allocation'
 
 
-def run_history(plan, timeout=30):
+def run_history(plan, timeout=25):
     if not os.path.exists(LMMSIM):
         raise dst.Infra('harness %s missing' % LMMSIM)
     env = {}
@@ -232,7 +234,9 @@ def run_history(plan, timeout=30):
     p = parse_output(text)
     outcome = 'ok'
     if to:
-        outcome = 'timeout'
+        outcome = 'wall-timeout'         # infrastructure: the harness kills itself after 2 s of CPU time
+    elif rc == -24:
+        outcome = 'timeout'              # SIGXCPU: the solver did not return
     elif rc != 0:
         if p['abort'] and p['abort'][1] == 'S' and plan['solver'] == 'bmf' and BMF_GIVEUP in errt:
             outcome = 'bmf-giveup'       # explicit, documented error: allowed outcome
@@ -274,9 +278,12 @@ def check_requested(state, req):
             continue
         want = req[vid]
         if want <= 0:
-            if v['pen'] > 0 or v['staged'] > 0:
+            if v['pen'] > 0 or v['value'] != 0:
                 out.append(('suspended-runs', 'variable %d was suspended (penalty 0 requested) but holds penalty %g '
                             'staged %g value %.9g' % (vid, v['pen'], v['staged'], v['value'])))
+            elif v['staged'] > 0:
+                out.append(('suspended-staged', 'variable %d was suspended (penalty 0 requested) but is still staged '
+                            '(penalty %g waiting for a slot): it will run as soon as a slot frees' % (vid, v['staged'])))
         else:
             if not ((v['pen'] == want and v['staged'] == 0) or (v['pen'] == 0 and v['staged'] == want)):
                 out.append(('penalty-lost', 'variable %d: penalty %g requested but the system holds penalty %g staged %g'
@@ -357,6 +364,15 @@ def features(plan):
         suspend=any(o[0] == 'P' and o[2] == 0 for o in ops))
 
 
+MON_KNOWN = {'C15': {'cap', 'val-nan', 'val-disabled', 'val-negative', 'val-bound'}, 'C16': {'mm-unfair'},
+             'C17': {'sel-differs'},
+             'C18': {'conc-counter', 'conc-limit', 'conc-elemset', 'staged-enabled', 'staged-starved'}}
+
+
+def mon_family(cls):
+    return 'cap' if cls.startswith('cap-') else cls
+
+
 class LmmCheck(dst.Check):
     """common part of C15..C18"""
     level = 'exploration'
@@ -367,7 +383,7 @@ class LmmCheck(dst.Check):
     limits_bias = 0.5
     my_monitor_prop = None   # 'C15'...: LMMVIOL lines of that property are violations of this check
     crash_is_violation = True
-    hang_is_violation = False
+    hang_is_violation = True
     shrink_budget = 500
     real_vs_stub = {
         'lmm::System (constraints, variables, elements, concurrency staging, selective update)': 'real',
@@ -395,8 +411,8 @@ class LmmCheck(dst.Check):
 
     def run(self, plan, scratch):
         r = run_history(plan)
-        if r['outcome'] == 'timeout' and not self.hang_is_violation:
-            raise dst.Infra('lmmsim timed out (seed %s)' % plan.get('seed'))
+        if r['outcome'] == 'wall-timeout' or (r['outcome'] == 'timeout' and not self.hang_is_violation):
+            raise dst.Infra('lmmsim timed out (%s, seed %s)' % (r['outcome'], plan.get('seed')))
         return r
 
     # property-specific part
@@ -413,19 +429,32 @@ class LmmCheck(dst.Check):
             out.append(('crash', 'lmmsim rc=%s during op %s (%s): %s' %
                         (res['rc'], a[0] if a else '?', a[1] if a else '?', ' | '.join(info) or ' | '.join(msg[-2:]))))
         if res['outcome'] == 'timeout' and self.hang_is_violation:
-            out.append(('hang', 'solver did not return within the kill budget'))
+            out.append(('hang', '%s solver did not return (killed after 2 s of CPU time; a history normally takes '
+                        'milliseconds); last op started: %s' % (plan['solver'], res['ops'][-1] if res['ops'] else '?')))
         reqs = requested_penalties(plan, res)
         seen = set()
+        py_solve = set()
         for st in res['states']:
             for cls, msg in self.check_state(plan, res, st, reqs.get(st['idx'], {})):
+                if st['kind'] == 'solve':
+                    py_solve.add(mon_family(cls))
                 if cls not in seen:           # first occurrence per class is enough
                     seen.add(cls)
                     out.append((cls, 'after op %d: %s' % (st['idx'], msg)))
-        if self.my_monitor_prop:
+        # the in-process monitor (second, independent implementation of the same rules, run inside the solve hook)
+        # must agree with this oracle on the classes both know
+        if self.my_monitor_prop and res['outcome'] == 'ok':
+            known = MON_KNOWN[self.my_monitor_prop]
+            mon = {}
             for prop, cls, msg in res['viol']:
-                if prop == self.my_monitor_prop and ('mon-' + cls) not in seen:
-                    seen.add('mon-' + cls)
-                    out.append(('mon-' + cls, 'in-process monitor: ' + msg))
+                if prop == self.my_monitor_prop:
+                    mon.setdefault(mon_family(cls), msg)
+            for f in sorted(mon):
+                if f not in py_solve:
+                    out.append(('mon-only-' + f, 'in-process monitor reports what the oracle does not: ' + mon[f]))
+            for f in sorted(py_solve & known):
+                if f not in mon:
+                    out.append(('mon-missed-' + f, 'the oracle reports %s but the in-process monitor is silent' % f))
         return out
 
     def nontrivial(self, plan, res):
